@@ -24,7 +24,7 @@ TRUSTED = [
     'predicate-free GenericStrategy under ignore_context for the generated match paths, plus Path.select for the six body paths '
     '(. node() * text() *|text() name): hand-written Lean model tied by correspondence',
     'not modelled: the XML parser, _flatten/_apply_directives (the generator flattens its own template description: '
-    'py:for unrolled, data streams spliced, py:match registrations in place), _include (no includes generated), the serializer',
+    'py:for unrolled, data streams and included files spliced, py:match registrations in place), _include and the loader, the serializer',
     'theorems are parametric in an abstract matcher (state, step; laws: an END undoes its START, updateonly is not read); '
     'GenericStrategy paths with positional predicates reach the real code in the oracle streams but have no Lean matcher',
     'the forest parser of the driver verb `tree` (specification vs code) is unverified plumbing',
@@ -36,6 +36,8 @@ ASSUMPTIONS = [
     'no path step relies on the document root element: match templates are registered after the root START has passed '
     '(known finding C12-root-context)',
     'py:match declarations are children of the root (before or between the content), never inside matched content',
+    'xi:include (both loader modes) only as a child of the root: a run-time include inside a matched element is the '
+    'known finding C12-include-in-match',
     'bodies are literal markup plus select() calls; buffer="false" only with at most one select() (documented requirement)',
 ]
 
@@ -46,8 +48,10 @@ LAZY_FUEL = 2000     # bounds the nesting of generators, not the length of the s
 # --------------------------------------------------------------------------
 # oracle
 
-def _variant(kids, fn):
+def _variant(kids, fn, like=None):
     c = {'kids': copy.deepcopy(kids)}
+    if like and 'auto_reload' in like:
+        c['auto_reload'] = like['auto_reload']
     fn(c)
     return c
 
@@ -92,6 +96,10 @@ def _ok_tmpl(t):
             and ('attrs' not in t or G.hint_flags(t['attrs']) == (t['buffer'], t['once'], t['recursive'])))
 
 
+def _plain(node):
+    return isinstance(node, str) or (isinstance(node, list) and all(_plain(k) for k in node[1]))
+
+
 def _ok_items(items, decl_ok=True):
     for it in items:
         if isinstance(it, str):
@@ -106,6 +114,9 @@ def _ok_items(items, decl_ok=True):
             elif 'frag' in it:
                 if not _ok_items(it['frag'], False) or any(isinstance(x, dict) for x in it['frag']):
                     return False
+            elif 'inc' in it:
+                if not (isinstance(it['inc'], list) and _ok_items([it['inc']], False) and _plain(it['inc'])):
+                    return False
             else:
                 return False
         elif not (isinstance(it, list) and len(it) == 2 and isinstance(it[0], str) and _NAME.match(it[0])
@@ -119,7 +130,7 @@ def well_formed(case):
     declarations are children of the root, at least one of them, names are names, indices in range"""
     try:
         kids = case['kids']
-        if not _ok_items(kids):
+        if not _ok_items(kids) or not isinstance(case.get('auto_reload', False), bool):
             return False
         n = len(G.case_templates({'kids': kids}))
         kind = case['kind']
@@ -142,6 +153,8 @@ def oracle_case(case):
         return None
     kind = case['kind']
     base = {'kids': case['kids']}
+    if 'auto_reload' in case:
+        base['auto_reload'] = case['auto_reload']
 
     def bad(what, expected, observed):
         return {'case': case, 'what': what, 'expected': expected, 'observed': observed}
@@ -159,7 +172,7 @@ def oracle_case(case):
         return None
     if kind == 'nonmatch':
         r0 = G.render_real(base, 'xml')
-        v = _variant(case['kids'], lambda c: c['kids'].insert(case['at'], copy.deepcopy(case['tmpl'])))
+        v = _variant(case['kids'], lambda c: c['kids'].insert(case['at'], copy.deepcopy(case['tmpl'])), case)
         r1 = G.render_real(v, 'xml')
         if r0 != r1:
             return bad('a template whose path matches no element leaves the output unchanged', r0, r1)
@@ -167,7 +180,7 @@ def oracle_case(case):
     if kind == 'identity':
         r0 = G.render_real(base, 'xml')
         t = {'match': case['path'], 'body': [{'sel': '.'}], 'buffer': True, 'once': False, 'recursive': True}
-        v = _variant(case['kids'], lambda c: c['kids'].insert(case['at'], t))
+        v = _variant(case['kids'], lambda c: c['kids'].insert(case['at'], t), case)
         r1 = G.render_real(v, 'xml')
         if r0 != r1:
             return bad('a template whose body reproduces the matched element leaves the output unchanged', r0, r1)
@@ -190,7 +203,7 @@ def oracle_case(case):
                 G.set_hints(tv[i], buffer=False)
             for i in case.get('once', []):
                 G.set_hints(tv[i], once=True)
-        r1 = G.render_real(_variant(case['kids'], hint), 'xml')
+        r1 = G.render_real(_variant(case['kids'], hint, case), 'xml')
         if r0 != r1:
             return bad('buffer="false" (body with at most one select) / once="true" (at most one matching element) '
                        'do not change the output', r0, r1)
@@ -212,18 +225,19 @@ def gen_oracle_case(rng):
     r = rng.random()
     if r < 0.30:
         # reference class: predicate-free paths of every strategy, all hints, late declarations, generated markup
-        c = G.rand_case(rng, hints=True, pos=False, late=0.2, gen_markup=0.25, maxsel=2)
+        c = G.rand_case(rng, hints=True, pos=False, late=0.2, gen_markup=0.25, maxsel=2, inc=0.15)
         for t in G.case_templates(c):
             if not t['buffer'] and G.body_nsel(t['body']) > 1:
                 G.set_hints(t, buffer=True)
-        return {'kind': 'ref', 'kids': c['kids']}
+        return dict(c, kind='ref')
     if r < 0.45:
-        c = G.rand_case(rng, hints=True, pos=False, late=0.0, gen_markup=0.25, maxsel=2)
+        c = G.rand_case(rng, hints=True, pos=False, late=0.0, gen_markup=0.25, maxsel=2, inc=0.15)
         for t in G.case_templates(c):
             if not t['buffer'] and G.body_nsel(t['body']) > 1:
                 G.set_hints(t, buffer=True)
-        return {'kind': 'staged', 'kids': c['kids']}
-    c = G.rand_case(rng, hints=rng.random() < 0.5, pos=rng.random() < 0.3, late=0.1, gen_markup=0.2, maxsel=2)
+        return dict(c, kind='staged')
+    c = G.rand_case(rng, hints=rng.random() < 0.5, pos=rng.random() < 0.3, late=0.1, gen_markup=0.2, maxsel=2, inc=0.1)
+    extra = dict((k, v) for k, v in c.items() if k != 'kids')
     for t in G.case_templates(c):
         if not t['buffer'] and G.body_nsel(t['body']) > 1:
             G.set_hints(t, buffer=True)
@@ -232,22 +246,22 @@ def gen_oracle_case(rng):
     if r < 0.62:
         t = {'match': rng.choice(NEVER), 'body': G.rand_body(rng, maxsel=1), 'buffer': rng.random() < 0.7,
              'once': rng.random() < 0.3, 'recursive': rng.random() < 0.8}
-        return {'kind': 'nonmatch', 'kids': kids, 'at': rng.choice(pos + [pos[-1] + 1]), 'tmpl': t}
+        return dict(extra, kind='nonmatch', kids=kids, at=rng.choice(pos + [pos[-1] + 1]), tmpl=t)
     if r < 0.78:
-        return {'kind': 'identity', 'kids': kids, 'at': rng.choice(pos + [pos[-1] + 1]),
-                'path': G.rand_path(rng, G.DOC_NAMES + ['w', 'x'], pos_ok=rng.random() < 0.15)}
+        return dict(extra, kind='identity', kids=kids, at=rng.choice(pos + [pos[-1] + 1]),
+                    path=G.rand_path(rng, G.DOC_NAMES + ['w', 'x'], pos_ok=rng.random() < 0.15))
     # hints on the unhinted base
     for t in G.case_templates(c):
         G.set_hints(t, buffer=True, once=False)
     n = len(G.case_templates(c))
     buf = [i for i in range(n) if rng.random() < 0.5]
     once = [i for i in range(n) if rng.random() < 0.4]
-    return {'kind': 'hints', 'kids': kids, 'buffer': buf, 'once': once}
+    return dict(extra, kind='hints', kids=kids, buffer=buf, once=once)
 
 
 def gen_corr_case(rng):
     """cases for the model: paths of the two modelled strategies, positional predicates included"""
-    c = G.rand_case(rng, hints=True, pos=rng.random() < 0.4, late=0.2, gen_markup=0.2, maxsel=2)
+    c = G.rand_case(rng, hints=True, pos=rng.random() < 0.4, late=0.2, gen_markup=0.2, maxsel=2, inc=0.1)
     if rng.random() < 0.7:
         # mostly inside the documented use of buffer="false" (one select); the rest checks that the model
         # also follows the code when a second select() finds the lazily consumed content exhausted
@@ -318,6 +332,8 @@ def compare(cases, res, stream, verb='run'):
         if m != real:
             res.disagreements.append({'stream': stream, 'case': {'kind': 'ref', 'kids': cases[i]['kids']},
                                       'model': repr(m)[:600], 'real': repr(real)[:600]})
+            if 'auto_reload' in cases[i]:
+                res.disagreements[-1]['case']['auto_reload'] = cases[i]['auto_reload']
 
 
 # --------------------------------------------------------------------------
@@ -344,6 +360,10 @@ def shard(arg):
         res.count('oracle:' + case['kind'])
         ts = G.case_templates({'kids': case['kids']})
         res.count('templates:%d' % len(ts))
+        txt = json.dumps(case['kids'])
+        for tag, name in (('"inc"', 'include'), ('"for"', 'py:for'), ('"frag"', 'data-stream')):
+            if tag in txt:
+                res.count('construct:' + name + (':runtime' if name == 'include' and case.get('auto_reload') else ''))
         for t in ts:
             res.count('strategy:' + G.path_strategy(t['match']))
             if not t.get('buffer', True):
